@@ -197,6 +197,56 @@ Section CopyInv.
         * unfold set_fresh. split; cbn; [apply IC_local; exact Hc | apply IW_bump; exact Hw2].
         * split; cbn; [apply IC_adopt_ctx; assumption | exact Hw2].
   Qed.
+
+  (** cache (with the lazy update, which runs the rest of the chain on a copy) *)
+  Variable clock : N -> option N.
+  Hypothesis IC_hit : forall x c w rid inst key v f,
+    IC x c -> IW w -> msg_key (c_query c) = Some key -> lookup key (w_store w inst) = Some v ->
+    IC x (set_response c rid (with_id (map_ttl_msg f v) (m_id (c_query c)))).
+  Hypothesis IW_save : forall x c c2 w2 inst key r,
+    IC x c -> IC x c2 -> msg_key (c_query c) = Some key -> IW w2 -> c_resp c2 = Some r ->
+    answers_question r (c_query c2) = true -> IW (save inst key r w2).
+
+  Lemma try_save_Icw x c c2 w2 inst key :
+    IC x c -> IC x c2 -> msg_key (c_query c) = Some key -> IW w2 -> IW (try_save inst key c2 w2).
+  Proof.
+    intros Hc Hc2 Ek Hw2. unfold try_save. destruct (c_resp c2) as [r|] eqn:Er; [|exact Hw2].
+    destruct (answers_question r (c_query c2)) eqn:Ea; [|exact Hw2].
+    exact (IW_save x c c2 w2 inst key r Hc Hc2 Ek Hw2 Er Ea).
+  Qed.
+
+  Lemma cache_Icw inst lazy k : okk Icw k -> okk Icw (cache_exec clock inst lazy k).
+  Proof.
+    intros Hk x [c w] [Hc Hw]. cbn [fst snd] in Hc, Hw. unfold cache_exec.
+    destruct (msg_key (c_query c)) as [key|] eqn:Ek; [|apply Hk; split; assumption].
+    set (found := cache_find clock inst lazy key w).
+    assert (Hf : forall r, fst found = Some r -> IC x (set_response c (w_next w) (with_id r (m_id (c_query c))))).
+    { subst found. unfold cache_find. intros r E.
+      destruct (existsb (same_entry inst key) (w_stale w)).
+      - destruct (0 <? lazy); [|discriminate]. destruct (lookup key (w_store w inst)) as [v|] eqn:El; [|discriminate].
+        cbn in E. inversion E; subst r. unfold set_ttl. exact (IC_hit x c w (w_next w) inst key v _ Hc Hw Ek El).
+      - cbn in E. unfold get_cached in E. destruct (lookup key (w_store w inst)) as [v|] eqn:El; [|discriminate].
+        destruct (clock (w_next w)); [|discriminate]. inversion E; subst r. unfold subtract_ttl.
+        exact (IC_hit x c w (w_next w) inst key v _ Hc Hw Ek El). }
+    set (w1 := if snd found && negb (w_sf (bump w))
+               then let '(_, (cb, wb), _) := k (ctx_copy (c, bump w)) in try_save inst key cb wb
+               else bump w).
+    assert (Hw1 : IW w1).
+    { subst w1. destruct (snd found && negb (w_sf (bump w))); [|apply IW_bump; exact Hw].
+      pose proof (Hk x _ (Icw_copy x (c, bump w) (conj Hc (IW_bump w Hw)))) as Hb.
+      destruct (k (ctx_copy (c, bump w))) as [[tb [cb wb]] eb]. unfold ost in Hb. cbn [fst snd] in Hb.
+      destruct Hb as [Hcb Hwb]. exact (try_save_Icw x c cb wb inst key Hc Hcb Ek Hwb). }
+    clearbody w1.
+    set (c1 := match fst found with
+               | Some r => set_response c (w_next w) (with_id r (m_id (c_query c)))
+               | None => c end).
+    assert (Hc1 : IC x c1) by (subst c1; destruct (fst found) as [r|] eqn:Ef; [apply Hf; reflexivity | exact Hc]).
+    clearbody c1.
+    pose proof (Hk x (c1, w1) (conj Hc1 Hw1)) as H2. destruct (k (c1, w1)) as [[t [c2 w2]] err].
+    unfold ost in *. cbn [fst snd] in *. destruct H2 as [Hc2 Hw2]. split; cbn [fst snd]; [exact Hc2|].
+    destruct (match fst found with Some _ => c_rid c2 =? w_next w | None => false end); [exact Hw2|].
+    exact (try_save_Icw x c c2 w2 inst key Hc Hc2 Ek Hw2).
+  Qed.
 End CopyInv.
 Arguments Icw {X} IC IW x s.
 
@@ -459,6 +509,24 @@ Proof.
   apply existsb_exists in H2 as (c & Hc & E). apply N.eqb_eq in E. now subst.
 Qed.
 
+Lemma lookup_in key st v : lookup key st = Some v -> In (key, v) st.
+Proof.
+  induction st as [|[k' v'] t IH]; cbn; [discriminate|].
+  destruct (list_eqb N.eqb key k') eqn:E.
+  - intro H. inversion H; subst. apply CacheKey.eqb_bytes_iff in E. subst. now left.
+  - intro H. right. auto.
+Qed.
+
+Lemma save_log inst key r w : w_log (save inst key r w) = w_log w.
+Proof. unfold save. destruct (0 <? save_ttl r); reflexivity. Qed.
+
+Lemma save_store_in inst key r w i k v :
+  In (k, v) (w_store (save inst key r w) i) -> In (k, v) (w_store w i) \/ (i = inst /\ k = key /\ v = copy_no_opt r).
+Proof.
+  unfold save. destruct (0 <? save_ttl r); [|auto]. cbn. destruct (i =? inst) eqn:E; [|auto].
+  apply N.eqb_eq in E. subst i. intros [H|H]; [inversion H; auto | auto].
+Qed.
+
 (** * C15, upstream side: what is handed to an upstream *)
 Section UpstreamSide.
   Variable ups : N -> msg -> option msg.
@@ -588,22 +656,15 @@ Section UpstreamSide.
     cbn. apply Forall_app. split; assumption.
   Qed.
 
-  Lemma cache_invU inst k : okk invU k -> okk invU (cache_exec clock inst k).
+  Lemma cache_invU inst lazy k : okk invU k -> okk invU (cache_exec clock inst lazy k).
   Proof.
-    intros Hk x [c w] Hs. unfold cache_exec.
-    destruct (msg_key (c_query c)) as [key|]; [|apply Hk; exact Hs].
-    set (c1 := match get_cached clock key (w_store w inst) (w_next w) with
-               | Some r => set_response c (w_next w) (with_id r (m_id (c_query c)))
-               | None => c end).
-    assert (H1 : invU x (c1, bump w)).
-    { revert Hs. apply invU_frame; cbn; try reflexivity; subst c1;
-        destruct (get_cached clock key (w_store w inst) (w_next w)); try reflexivity;
-        destruct (set_response_fields c (w_next w) (with_id m (m_id (c_query c)))) as (E1 & E2 & E3 & _); congruence. }
-    specialize (Hk x _ H1). destruct (k (c1, bump w)) as [[t [c2 w2]] err]. unfold ost in *. cbn [fst snd] in *.
-    destruct (c_resp c2) as [r|]; [|exact Hk].
-    match goal with |- context [if ?b then _ else _] => destruct b end; [|exact Hk].
-    unfold save. destruct (0 <? save_ttl r); [|exact Hk].
-    revert Hk. apply invU_frame; reflexivity.
+    intro Hk. apply (okk_ext (Icw ICU IWU)); [intros; symmetry; apply invU_iff|].
+    refine (cache_Icw unit ICU IWU _ _ clock _ _ inst lazy k _).
+    - intros x c rid Hc. exact Hc.
+    - intros w Hw. exact Hw.
+    - intros x c w rid i key v f Hc _ _ _. apply ICU_set_response. exact Hc.
+    - intros x c c2 w2 i key r _ _ _ Hw _ _. unfold IWU. rewrite save_log. exact Hw.
+    - apply (okk_ext invU); [apply invU_iff | exact Hk].
   Qed.
 
   Lemma redirect_invU f k : okk invU k -> okk invU (redirect_exec f k).
@@ -722,10 +783,7 @@ Section StoreSide.
 
   Lemma save_no_opt inst key r w : stores_no_opt w -> stores_no_opt (save inst key r w).
   Proof.
-    intros H. unfold save. destruct (0 <? save_ttl r); [|exact H].
-    intros i k v. unfold put_store. cbn. destruct (i =? inst) eqn:E; [|apply H].
-    intros [Hin|Hin]; [|apply N.eqb_eq in E; subst; eapply H; exact Hin].
-    inversion Hin; subst. apply copy_no_opt_extra.
+    intros H i k v Hin. apply save_store_in in Hin as [Hin | (_ & _ & ->)]; [eapply H; exact Hin | apply copy_no_opt_extra].
   Qed.
 
   Lemma set_fresh_store s r : w_store (snd (set_fresh s r)) = w_store (snd s).
@@ -753,6 +811,15 @@ Section StoreSide.
     - apply (okk_ext invS); [apply invS_iff | exact Hk].
   Qed.
 
+  Lemma cache_invS inst lazy k : okk invS k -> okk invS (cache_exec clock inst lazy k).
+  Proof.
+    intro Hk. apply (okk_ext (Icw (fun (_ : unit) (_ : ctx) => True) stores_no_opt)); [intros; symmetry; apply invS_iff|].
+    refine (cache_Icw unit _ stores_no_opt _ _ clock _ _ inst lazy k _); try (intros; exact I).
+    - intros w Hw. exact Hw.
+    - intros x c c2 w2 i key r _ _ _ Hw _ _. apply save_no_opt. exact Hw.
+    - apply (okk_ext invS); [apply invS_iff | exact Hk].
+  Qed.
+
   Lemma exec_x_invS runsub p x s :
     (forall rs, okk invS (runsub rs)) -> invS x s -> invS x (fst (exec_x ups runsub p s)).
   Proof.
@@ -772,11 +839,7 @@ Section StoreSide.
   Lemma wrap_w_invS w k : okk invS k -> okk invS (wrap_w clock (wp w) k).
   Proof.
     intros Hk x [c wd] Hs. destruct (wp w); cbn [wrap_w].
-    - unfold cache_exec. destruct (msg_key (c_query c)) as [key|]; [|apply Hk; exact Hs].
-      match goal with |- context [k (?c1, bump wd)] => specialize (Hk x (c1, bump wd) Hs); destruct (k (c1, bump wd)) as [[t [c2 w2]] err] end.
-      unfold ost in *. cbn [fst snd] in *. destruct (c_resp c2) as [r|]; [|exact Hk].
-      match goal with |- context [if ?b then _ else _] => destruct b end; [|exact Hk].
-      apply save_no_opt. exact Hk.
+    - apply cache_invS; [exact Hk | exact Hs].
     - unfold redirect_exec.
       destruct (m_question (c_query c)) as [|qu [|]]; try (apply Hk; exact Hs).
       destruct (negb (qclass qu =? class_inet)); [apply Hk; exact Hs|].
@@ -976,35 +1039,20 @@ Section ClientSide.
   Lemma reject_x_invD rc x s : invD x s -> invD x (reject_x rc s).
   Proof. intro H. unfold reject_x. apply set_fresh_local_invD; [reflexivity | exact H]. Qed.
 
-  Lemma cache_invD inst k : okk invD k -> okk invD (cache_exec clock inst k).
+  Lemma cache_invD inst lazy k : okk invD k -> okk invD (cache_exec clock inst lazy k).
   Proof.
-    intros Hk x [c w] Hs. unfold cache_exec.
-    destruct (msg_key (c_query c)) as [key|]; [|apply Hk; exact Hs].
-    set (c1 := match get_cached clock key (w_store w inst) (w_next w) with
-               | Some r => set_response c (w_next w) (with_id r (m_id (c_query c)))
-               | None => c end).
-    assert (H1 : invD x (c1, bump w)).
-    { subst c1. destruct (get_cached clock key (w_store w inst) (w_next w)) as [r|] eqn:Eg.
-      - assert (Hr : opts_of (m_extra r) = []).
-        { unfold get_cached in Eg. destruct (lookup key (w_store w inst)) as [v|] eqn:El; [|discriminate].
-          destruct (clock (w_next w)); [|discriminate]. inversion Eg; subst r.
-          destruct (map_ttl_msg_same_opts (fun t => if n <? t then t - n else 1) v) as (_ & _ & E3 & _).
-          unfold subtract_ttl. rewrite E3. destruct Hs as (_ & _ & _ & _ & H5).
-          assert (Hin : In (key, v) (w_store w inst)).
-          { clear - El. induction (w_store w inst) as [|[k' v'] t IH]; cbn in El; [discriminate|].
-            destruct (list_eqb N.eqb key k') eqn:E.
-            - inversion El; subst. apply CacheKey.eqb_bytes_iff in E. subst. now left.
-            - right. auto. }
-          eapply H5. exact Hin. }
-        eapply set_response_invD; [ | | reflexivity | exact Hs].
-        + cbn. unfold count_opt. rewrite Hr. cbn. lia.
-        + cbn. intros o Ho. apply find_opt_in in Ho. rewrite Hr in Ho. destruct Ho.
-      - revert Hs. apply invD_frame; reflexivity. }
-    specialize (Hk x _ H1). destruct (k (c1, bump w)) as [[t [c2 w2]] err]. unfold ost in *. cbn [fst snd] in *.
-    destruct (c_resp c2) as [r|]; [|exact Hk].
-    match goal with |- context [if ?b then _ else _] => destruct b end; [|exact Hk].
-    destruct Hk as (H2 & H3 & H4 & H5 & H6). repeat split; try assumption.
-    apply save_no_opt. exact H6.
+    intro Hk. apply (okk_ext (Icw ICD stores_no_opt)); [intros; symmetry; apply invD_iff|].
+    refine (cache_Icw unit ICD stores_no_opt _ _ clock _ _ inst lazy k _).
+    - intros x c rid Hc. exact Hc.
+    - intros w Hw. exact Hw.
+    - intros x c w rid i key v f Hc Hw _ El. apply lookup_in in El.
+      assert (Hv : opts_of (m_extra (with_id (map_ttl_msg f v) (m_id (c_query c)))) = []).
+      { cbn. rewrite opts_of_map_ttl. eapply Hw. exact El. }
+      apply ICD_set_response; [| |exact Hc].
+      + unfold count_opt. rewrite Hv. cbn. lia.
+      + intros o Ho. apply find_opt_in in Ho. rewrite Hv in Ho. destruct Ho.
+    - intros x c c2 w2 i key r _ _ _ Hw _ _. apply save_no_opt. exact Hw.
+    - apply (okk_ext invD); [apply invD_iff | exact Hk].
   Qed.
 
   Lemma redirect_invD f k : okk invD k -> okk invD (redirect_exec f k).
@@ -1516,13 +1564,6 @@ Lemma map_ttl_msg_hdr f m :
   m_id (map_ttl_msg f m) = m_id m /\ m_qr (map_ttl_msg f m) = m_qr m /\ m_question (map_ttl_msg f m) = m_question m.
 Proof. repeat split. Qed.
 
-Lemma lookup_in key st v : lookup key st = Some v -> In (key, v) st.
-Proof.
-  induction st as [|[k' v'] t IH]; cbn; [discriminate|].
-  destruct (list_eqb N.eqb key k') eqn:E.
-  - intro H. inversion H; subst. apply CacheKey.eqb_bytes_iff in E. subst. now left.
-  - intro H. right. auto.
-Qed.
 
 Lemma msg_key_single q key qu :
   msg_key q = Some key -> m_question q = [qu] -> key = CacheKey.key_of (m_ad q) (m_cd q) (msg_do q) qu.
